@@ -124,6 +124,33 @@ func loadWorld(repo, verifDir string) (*World, error) {
 		}
 		w.fnByKey[w.fnKey(fn)] = fn
 	}
+	// a method whose receiver kind changed (value <-> pointer) keeps its contract: the clauses are
+	// then proved against the new body (a value method turned pointer method that now writes through
+	// its receiver fails its frame, a harmless change of kind raises nothing)
+	for k, c := range w.cs.Funcs {
+		if c.Assumed || w.fnByKey[k] != nil || !strings.HasPrefix(k, "(") {
+			continue
+		}
+		alt := "(*" + k[1:]
+		if strings.HasPrefix(k, "(*") {
+			alt = "(" + k[2:]
+		}
+		if w.fnByKey[alt] != nil && w.cs.Funcs[alt] == nil {
+			fmt.Fprintf(os.Stderr, "note: %s: the method now has the other receiver kind (%s); its contract is applied to it\n", k, alt)
+			delete(w.cs.Funcs, k)
+			c.Key = alt
+			w.cs.Funcs[alt] = c
+			if strings.HasPrefix(alt, "(*") {
+				// the value method could not be reached through a nil pointer either (Go panics at the call)
+				if fn := w.fnByKey[alt]; len(fn.Params) > 0 {
+					text := fn.Params[0].Name() + " != nil"
+					if ex, err := parseClauseExpr(text); err == nil {
+						c.Requires = append(c.Requires, &Clause{Kind: "requires", Label: "receiver", Text: text, Expr: ex})
+					}
+				}
+			}
+		}
+	}
 	// every package-level variable of type error is a sentinel with its own class bit
 	for _, name := range []string{"psatoken", "encoding"} {
 		sp := w.spkgs[name]
